@@ -26,3 +26,19 @@ def c09_collapsed_authority(ctx):
     if a is None or st is None:
         return False
     return len(a) > 0 and len(st) == 0
+
+
+USES_NETLOC = ("ftp", "http", "gopher", "nntp", "telnet", "imap", "wais", "file", "mms", "https", "shttp", "snews", "prospero", "rtsp", "rtspu",
+               "rsync", "svn", "svn+ssh", "sftp", "nfs", "git", "git+ssh", "ws", "wss", "itms-services")
+
+
+def c03_scheme_rootless(ctx):
+    """F13: a URL with a uses-authority scheme, no authority and a non-empty rootless path"""
+    sc = ctx.notes.get("u_scheme")
+    nl = ctx.notes.get("u_netloc")
+    p = ctx.notes.get("u_path")
+    if sc is None or nl is None or p is None:
+        return False
+    if len(nl) != 0 or len(p) == 0:
+        return False
+    return all_of([any_of([sc == s for s in USES_NETLOC]), p[0] != "/"])
